@@ -109,7 +109,7 @@ def build(case, name=None):
     regs = [r for r, k in zip(regs, ("bat", "meta")) if k not in case.get("omit_regions", [])]
     chunks[3 * ALIGN] = region_table(regs)
     chunks[4 * ALIGN] = region_table(regs)
-    fp = struct.pack("<II", bs, (2 if case.get("has_parent") else 0))
+    fp = struct.pack("<II", bs, (2 if case.get("has_parent") else 0) | (1 if case.get("leave_alloc") else 0))
     items = [(G["file_parameters"], fp), (G["size"], struct.pack("<Q", case["size"])),
              (G["id"], uuid.UUID(int=case.get("disk_id", 0x1234)).bytes_le),
              (G["lss"], struct.pack("<I", ss)), (G["pss"], struct.pack("<I", 4096))]
